@@ -167,6 +167,38 @@ theorem pwm_duty (P W : Nat) (s : PwmSt) (hs : s.counter = 0) (ins : List PwmIn)
 example : (pwm.trace (List.replicate 9 ⟨true, false, 1, 4⟩)) =
     [false, true, false, false, false, true, false, false, false] := by decide
 
+/-! ## timeline -/
+
+/-- **timeline.**  `last ≥ 1` is the largest event time.  From the idle counter a trigger starts the sequence; `k`
+    cycles after the trigger cycle (`1 ≤ k ≤ last`) the counter shows `k` — so the event with time `e` fires exactly
+    `e` cycles after the trigger, whatever the trigger input does meanwhile — and one cycle after `last` the counter is
+    idle again (also when `last + 1` is a power of two and the counter simply overflows). -/
+theorem timeline_sequence (last : Nat) (hl : 1 ≤ last) (ts : List Bool) (hlen : ts.length < last) (t : Bool) :
+    (timelineM last).runFrom 0 (true :: ts) = 1 + ts.length ∧
+    timelineFires (1 + ts.length) ((timelineM last).runFrom 0 (true :: ts)) t = true ∧
+    (ts.length + 1 = last → (timelineM last).runFrom 0 (true :: ts ++ [t]) = 0) ∧
+    (timelineM last).runFrom 0 [false] = 0 := by
+  have h1 : (timelineM last).runFrom 0 (true :: ts) = 1 + ts.length := by
+    show (timelineM last).runFrom (timelineNext last 0 true) ts = _
+    rw [timeline_next_idle last true hl]
+    exact timeline_counts last hl ts 1 (by omega) (by omega)
+  refine ⟨h1, ?_, ?_, ?_⟩
+  · rw [h1]
+    have : ¬ (1 + ts.length = 0) := by omega
+    simp [timelineFires]
+  · intro he
+    have : (timelineM last).runFrom 0 (true :: ts ++ [t]) =
+        timelineNext last ((timelineM last).runFrom 0 (true :: ts)) t := by
+      rw [show true :: ts ++ [t] = (true :: ts) ++ [t] from rfl, Machine.runFrom_append]; rfl
+    rw [this, h1, timeline_next_running last _ t hl (by omega) (by omega)]
+    have : 1 + ts.length = last := by omega
+    simp [this]
+  · show timelineNext last 0 false = 0
+    rw [timeline_next_idle last false hl]; rfl
+
+example : ((List.range 9).map fun k => (timelineM 5).runFrom 0 ((true :: List.replicate 8 true).take k)) =
+    [0, 1, 2, 3, 4, 5, 0, 1, 2] := by decide
+
 /-! ## Phase accumulator, UART transmitter -/
 
 /-- **phase_accum.**  `j` enabled cycles after a disabled one: `phase = ((j+1)·tw) mod 2^32` and the number of
